@@ -162,6 +162,25 @@ class Scenario:
                     end(x)
                 return body()
             return f
+        if kind == "custom":
+            # a consumer handing back its own awaitable type (an object with __await__, neither a Future nor a coroutine)
+            def f(x):
+                g = begin(x)
+
+                class _Aw:
+                    def __await__(self_inner):
+                        yield from g.fut.__await__()
+                        end(x)
+                return _Aw()
+            return f
+        if kind == "value":
+            # a consumer whose function returns a plain value (not None, not awaitable): nothing to wait for
+            def f(x):
+                scen.keep_delivered(name, x)
+                scen.log.append(("in", name, scen.loop.time(), _freeze(x)))
+                scen.log.append(("out", name, scen.loop.time(), _freeze(x)))
+                return 5
+            return f
         if kind == "done":
             # a consumer that hands back an awaitable which has already completed
             def f(x):
